@@ -205,14 +205,14 @@ def run(ctx):
                        "the returned set is not the one whose likelihood was evaluated and stored", disc="final")
 
     # ------------------------------------------------------------ final enlargement: resample at beta=1 to the requested size, then mutate
-    from .smcloop import fold_sample
+    from .smcloop import fold_sample, roles
     sfe = fold_sample(repo, resumed=False, final=True)
     smp_ = smc.methods["sample"]
     rs_ = [e for e in sfe.events("method:resample", in_loop=False)]
     mu_ = [e for e in sfe.events(".mutate", in_loop=False)]
     oke = len(rs_) == 1 and len(mu_) == 1 and rs_[0].args[1] == T.ONE and dict(rs_[0].kwargs).get("n_samples") == T.atom("n_final_samples") \
         and mu_[0].args[0] == rs_[0].result and mu_[0].args[1] == T.ONE
-    post = sfe.ev.last_state.env.get("samples")
+    post = sfe.ev.last_state.env.get(roles(repo).samples)
     ctx.decide(oke and post == (mu_[0].result if mu_ else None), "C10.final", smp_.ident, loc_of(smp_, rs_[0].node if rs_ else None),
                "enlargement: the final population is mutate(resample(population, 1.0, n_final_samples), 1.0), so its densities are re-evaluated",
                "the final-sample enlargement does not return mutate(resample(population, beta=1, size=n_final_samples), beta=1)")
